@@ -1050,8 +1050,7 @@ fn run_case(script: &str, specs: &[String], args: &[Args], sig: &str, rt: &Runti
     let mut pkg = match compiled {
         Err(_) => {
             let loc = LAST_PANIC.with(|p| p.borrow().clone());
-            rep.violation(
-                &format!("compiling a well-typed copy/mutate script panics the compiler at {loc}"),
+            crate::viol(rep, &format!("compiling a well-typed copy/mutate script panics the compiler at {loc}"),
                 &format!("compile-panic {loc}"),
                 input(json!(loc)),
             );
@@ -1081,7 +1080,7 @@ fn run_case(script: &str, specs: &[String], args: &[Args], sig: &str, rt: &Runti
         let r = std::panic::catch_unwind(std::panic::AssertUnwindSafe(|| f.call(a.0, a.1, a.2, a.3, a.4, a.5, a.6)));
         let got = LOG.lock().unwrap().join(",");
         if r.is_err() {
-            rep.violation("running the script panicked", "run-panic", input(json!(null)));
+            crate::viol(rep, "running the script panicked", "run-panic", input(json!(null)));
             return;
         }
         let want = drv.ask(&format!("c02 spec {sp}"));
@@ -1094,10 +1093,9 @@ fn run_case(script: &str, specs: &[String], args: &[Args], sig: &str, rt: &Runti
             let g: Vec<&str> = got.split(',').collect();
             let w: Vec<&str> = want.split(',').collect();
             let first = (0..g.len().max(w.len())).find(|i| g.get(*i) != w.get(*i)).unwrap_or(0);
-            rep.violation(
-                "a compiled script emits other component values than value semantics (Lean spec) prescribes",
-                &format!("value-semantics {sig}"),
-                input(json!({"first_difference_at": first, "impl": g.get(first), "spec": w.get(first),
+            crate::viol(rep, "a compiled script emits other component values than value semantics (Lean spec) prescribes",
+                "value-semantics",
+                input(json!({"statement_kinds": sig, "first_difference_at": first, "impl": g.get(first), "spec": w.get(first),
                              "impl_len": g.len(), "spec_len": w.len()})),
             );
             break;
